@@ -23,6 +23,14 @@ inductive Val where
   | nil
 deriving DecidableEq, Repr, Inhabited
 
+def Val.isNum : Val → Bool | .num _ => true | _ => false
+def Val.isStr : Val → Bool | .str _ => true | _ => false
+def Val.isList : Val → Bool | .list _ => true | _ => false
+def Val.isBool : Val → Bool | .bool _ => true | _ => false
+/-- index of the constructor (the seven runtime types) -/
+def Val.kind : Val → Nat
+  | .num _ => 0 | .bool _ => 1 | .str _ => 2 | .list _ => 3 | .record _ => 4 | .func _ _ => 5 | .nil => 6
+
 abbrev Scope := List (Str × Val)
 abbrev RecordObj := List (Str × Val)
 
